@@ -176,4 +176,9 @@ theorem cog21_energy_tree (p : Cog21.P) (c a α β r t : ℝ) (ht : 0 < t) (hΓT
   · obtain ⟨h2, h3, h4⟩ := cog21_tree_pre p r t hΓT ht h
     rw [energyResT_congr_near h2 h3 h4]; exact cog21_pre_energy p c a 0 α β r t
 
+/-- non-vacuity of the hypotheses of the tree-level theorems (class defaults, r = 1, t = 1; shock at 2/1160) -/
+example : ∃ p : Cog21.P, ∃ r t : ℝ, r ≠ 0 ∧ 0 < t ∧ p.rho0 ≠ 0 ∧ p.Gamma * p.temp0 ≠ 0 ∧ r ≠ cog21_shock p t := by
+  refine ⟨⟨400, 0, 0, 0, 0, 0, 9 / 5, 29 / 10⟩, 1, 1, by norm_num, by norm_num, by norm_num, by norm_num, ?_⟩
+  unfold cog21_shock; norm_num
+
 end EPV.C01
